@@ -117,7 +117,7 @@ theorem C02_finding_slice_prealloc_general (l n : Nat) (e : Ty) (rest : Bytes) (
                                    omega) rest 0
   have h1 : ¬ n = null32 := by unfold null32; omega
   have h2 : ¬ n > maxInt32 := by unfold maxInt32; omega
-  simp only [decode, decSlice, Dec.bind_apply, r, h1, h2, if_false, request, env]
+  simp only [decode, decSlice, Dec.bind_apply, r, h1, h2, if_false, requestAt, request, Env.forSite, env, List.contains_nil, Bool.false_eq_true]
   have : l < n := hl
   simp [this]
 
